@@ -961,6 +961,9 @@ def mon_C16(t):
             call = t.ack_call[a][1]
             if (call[0].startswith("put") or call[0] == "upsert") and not t.ack_is_update.get(a) and a < len(r["acks"]) and r["acks"][a] in (2, 3):
                 refused += 1
+        if p[0] == "call" and p[2].startswith("put") and r["ret"] and r["ret"][0] == 1 and len(r["ret"]) > 1 and r["ret"][1] in (2, 3):
+            # a put answered on the spot with an admission verdict (not enough space / heavier than the cache) is a put refused by admission too
+            refused += 1
         s = r["snap"]
         st = s["stats"]
         if (st[0] + st[1]) % U64 != lookups % U64:
